@@ -18,7 +18,8 @@ LEVEL = 'model_checking'
 RULE = ('full product of shapes x charge-vector pairs over a 3-letter alphabet x charge maps {id,neg,enc,big,huge(2**53+q)} x value kinds '
         '{complex,real,rankdef,zeroblock,zero}; non-trivial = at least one shared charge and a non-zero matrix')
 BUDGET = {'quick': 300, 'thorough': 3000}
-KINDS = ['complex', 'real', 'rankdef', 'zeroblock', 'zero']
+KINDS = ['complex', 'real', 'rankdef', 'zeroblock', 'zero', 'tiny', 'large']
+SCALES = {'tiny': 2.0 ** -60, 'large': 2.0 ** 60}
 
 
 def _cases(N, maps):
@@ -37,7 +38,9 @@ def run_case(case, ctx):
     q0 = f(q0l)
     q1 = f(q1l)
     m, n = len(q0), len(q1)
-    A = palette.block_matrix(ctx.rng(0), q0, q1, kind)
+    # 'tiny' / 'large': generic entries times an exact power of two (the factorisation is judged after undoing the scaling)
+    sc = SCALES.get(kind, 1.0)
+    A = palette.block_matrix(ctx.rng(0), q0, q1, 'complex' if kind in SCALES else kind) * sc
     if kind == 'real':
         A = A.real.copy()
     # memory layout of the argument: C-contiguous, Fortran-ordered, or a non-contiguous view (keyed by the case, all three occur)
@@ -67,7 +70,7 @@ def run_case(case, ctx):
         return
     ctx.check(k <= min(m, n), 'intermediate_dim_bounded', f'k={k} m={m} n={n}')
     ctx.check(k >= 1, 'intermediate_dim_positive', f'k={k}')
-    ctx.close(Q @ R, A0, 'product_equals_matrix')
+    ctx.close(Q @ (R / sc), A0 / sc, 'product_equals_matrix')
     ctx.close(Q.conj().T @ Q, np.identity(k), 'Q_orthonormal_columns')
     # block sparsity under intermediate charges (exact zeros required); charges compared as exact Python integers
     # (a mixed int64/float64 NumPy comparison would round charges above 2**53)
